@@ -35,21 +35,37 @@ volatile uint32_t sim_block_once_calls = 0, sim_block_guard_calls = 0, sim_block
 
 namespace {
 enum { kOnce = 1, kGuard = 2, kMutex = 3 };
+void once_noop() {}
+// The value a completed pthread_once leaves in its control word differs between implementations (glibc: 2; the
+// ThreadSanitizer interceptor keeps its own state machine in the same word: 1). The emulation must leave behind
+// exactly what the linked implementation would, because threads outside the simulation (main) call the real one on
+// the same control word later. Learnt once by running the real function on a scratch control word.
+int once_done_value() {
+  static int v = 0;
+  if (v == 0) {
+    pthread_once_t probe = PTHREAD_ONCE_INIT;
+    __real_pthread_once(&probe, once_noop);
+    v = *reinterpret_cast<volatile int*>(&probe);
+  }
+  return v;
 }
+}  // namespace
 
 extern "C" int __wrap_pthread_once(pthread_once_t* ctl, void (*init)(void)) {
   int tid = sch_self();
   if (tid < 0) return __real_pthread_once(ctl, init);
   sim_block_once_calls = sim_block_once_calls + 1;
-  volatile int* c = reinterpret_cast<volatile int*>(ctl);  // glibc: 0 = never run, 1 = in progress, 2 = done
+  volatile int* c = reinterpret_cast<volatile int*>(ctl);  // 0 = never run, kRunning = in progress (ours), done = see above
+  const int done = once_done_value();
+  const int kRunning = 0x5a0000;  // never a value of either real implementation's finished state
   for (;;) {
     int v = __atomic_load_n(c, __ATOMIC_SEQ_CST);
-    if (v == 2) {
+    if (v == done) {
       if (__tsan_acquire) __tsan_acquire(ctl);
       return 0;
     }
     if (v == 0) {
-      __atomic_store_n(c, 1, __ATOMIC_SEQ_CST);
+      __atomic_store_n(c, kRunning, __ATOMIC_SEQ_CST);
       try {
         init();  // may contain schedule points: other simulated threads then see "in progress"
       } catch (...) {
@@ -57,7 +73,7 @@ extern "C" int __wrap_pthread_once(pthread_once_t* ctl, void (*init)(void)) {
         throw;
       }
       if (__tsan_release) __tsan_release(ctl);
-      __atomic_store_n(c, 2, __ATOMIC_SEQ_CST);
+      __atomic_store_n(c, done, __ATOMIC_SEQ_CST);
       return 0;
     }
     sim_block_waits = sim_block_waits + 1;
